@@ -24,6 +24,17 @@ def describe(e):
          "draws_ok": r["draws_ok"]} for r in e["runs"]]}
 
 
+def _uses_clock(x):
+    """an unfixed uuid4 / datetime / date anywhere inside (they draw from the OS and the clock)"""
+    if isinstance(x, dict):
+        if x.get("t") in ("uuid4", "datetime", "date") and x.get("value") == []:
+            return True
+        return any(_uses_clock(v) for v in x.values())
+    if isinstance(x, list):
+        return any(_uses_clock(v) for v in x)
+    return False
+
+
 def main(chk):
     repo = core.setup_repo_path()
     quick = chk.tier == "quick"
@@ -44,6 +55,26 @@ def main(chk):
         j["seed"] = j["seed"] * 7919 + 17
         j["seed_kind"] = ["int", "str", "bytes", "float", "int"][j["id"] % 5]
     chk.require(len(jobs) >= 100, "too few sequences (%d)" % len(jobs))
+    # sequences of one to four random declarations nested three levels (custom types, aliases, regex
+    # programs, unions inside lists inside dicts): many draw sites in one run, and what one schema
+    # leaves behind in the shared generator meets the next
+    from . import deep
+    ndeep = 1500 if quick else 15000
+    made = 0
+    for i in range(ndeep * 6):
+        if made >= ndeep:
+            break
+        seq = []
+        for _ in range(1 + i % 4):
+            b = deep.build(chk.rng, 3)
+            if b is not None and not _uses_clock(b[0]):
+                seq.append(b[0])
+        if not seq:
+            continue
+        jobs.append({"id": len(jobs) + 1, "seed": chk.rng.randrange(10 ** 6), "seq": seq,
+                     "seed_kind": ["int", "str", "bytes", "float"][i % 4]})
+        made += 1
+        chk.count("deep_random_sequences")
     wd = tlc.workdir("C17_jobs")
     job_path = os.path.join(wd, "jobs.json")
     json.dump(jobs, open(job_path, "w"))
